@@ -701,7 +701,7 @@ func randomInput(r *core.Rng) Input {
 	return in
 }
 
-var exoticBindings = []string{"onStartup", "onStartup", "a b", "x y z", "a*", "?", "[ab]", "$HOME", "a;b", `a"b`, "a'b", "`id`", "-n", `a\b`, "", "café", "b1 __main__", "*"}
+var exoticBindings = []string{"a b", "x y z", "a*", "?", "[ab]", "$HOME", "a;b", `a"b`, "a'b", "`id`", "-n", `a\b`, "", "café", "b1 __main__", "*"}
 
 var wordRe = regexp.MustCompile(`\S+`)
 
@@ -733,6 +733,35 @@ func exoticInput(r *core.Rng) Input {
 	return in
 }
 
+// reservedInput: a typed context whose binding the user named "onStartup" (trigger of F20),
+// possibly among ordinary contexts.
+func reservedInput(r *core.Rng) Input {
+	typed := []string{"schedule", "sync", "added", "modified", "deleted", "group", "validating", "mutating", "conversion"}
+	c := mkCtx(typed[r.Intn(len(typed))], "onStartup")
+	var in Input
+	pre := r.Intn(3)
+	for i := 0; i < pre; i++ {
+		in.Ctxs = append(in.Ctxs, mkCtx(kinds[r.Intn(len(kinds))], "b1"))
+	}
+	in.Ctxs = append(in.Ctxs, c)
+	if r.Chance(40) {
+		in.Ctxs = append(in.Ctxs, mkCtx(kinds[r.Intn(len(kinds))], "b1"))
+	}
+	var pool []string
+	for _, x := range in.Ctxs {
+		pool = union(pool, candNames(x))
+	}
+	pool = union(pool, []string{"__on_startup", "__main__"})
+	var names []string
+	for _, n := range pool {
+		if r.Chance(65) {
+			names = append(names, n)
+		}
+	}
+	in.Defined = handlers(names, func(string) []int { return nil })
+	return in
+}
+
 // Corpus runs first: the Example of C19_Properties.v, an empty array, --config, a failing
 // handler in the middle, no candidate at all.
 func Corpus() []core.In[Input] {
@@ -757,9 +786,9 @@ func Corpus() []core.In[Input] {
 	for _, in := range ins {
 		out = append(out, core.In[Input]{Input: in, Stream: "corpus"})
 	}
-	// witness of the candidate finding (reserved binding name): judged as exotic, reported for triage
-	out = append(out, core.In[Input]{Input: Input{Exotic: true, Ctxs: []Ctx{{Kind: "schedule", Binding: "onStartup"}},
-		Defined: handlers([]string{"__on_schedule::onStartup", "__on_startup"}, zero)}, Stream: "exotic"})
+	// witness of the recorded finding F20 (reserved binding name): judged; excused by trigger F20
+	out = append(out, core.In[Input]{Input: Input{Ctxs: []Ctx{{Kind: "schedule", Binding: "onStartup"}},
+		Defined: handlers([]string{"__on_schedule::onStartup", "__on_startup"}, zero)}, Stream: "trigger-F20"})
 	return out
 }
 
@@ -791,6 +820,14 @@ func Gen(r *core.Rng, tier string) ([]core.In[Input], bool) {
 		}
 		ins = append(ins, core.In[Input]{Input: in, Stream: stream})
 	}
+	rt := r.Fork()
+	nReserved := nRandom / 20 // ~5% of the random stream
+	if nReserved < 4 {
+		nReserved = 4
+	}
+	for i := 0; i < nReserved; i++ {
+		ins = append(ins, core.In[Input]{Input: reservedInput(rt), Stream: "trigger-F20"})
+	}
 	re := r.Fork()
 	for i := 0; i < nExotic; i++ {
 		ins = append(ins, core.In[Input]{Input: exoticInput(re), Stream: "exotic"})
@@ -817,7 +854,7 @@ func Extra() map[string]any {
 		"library":                   "real " + repoDir() + "/shell_lib.sh sourced through a copy whose only change is /frameworks/shell/ -> " + repoDir() + "/frameworks/shell/",
 		"context_file":              "rendered by the real pkg/hook/binding_context ConvertBindingContextList(v1)",
 		"exhaustive_scope":          "exhaustive-1: 13 context kinds x every subset of the kind's candidate handlers (+__main__) x exit status {0,1} x decoy handlers {absent,present}; exhaustive-2 (thorough): 13x13 ordered kind pairs under one binding x every subset of the union of candidates x {no failure, failure at index 0, failure at index 1}",
-		"exotic_stream":             "binding names outside the model (blanks, glob characters, quotes, a typed binding named onStartup ...): never judged; Coq-evaluated counts are in trigger_cases (XMODEL = disagree with the model, XSPEC = fail the predicate P, RESERVED = inside trigger T)",
+		"exotic_stream":             "binding names outside the model (blanks, glob characters, quotes ...): never judged; Coq-evaluated counts are in trigger_cases (XMODEL = disagree with the model, XSPEC = fail the predicate P). trigger-F20 stream: typed contexts bound under the reserved name onStartup (corpus witness + ~5% of the random count), judged and excused by the recorded finding F20",
 		"exotic_cases":              len(exoticLog),
 		"exotic_differ_atoms_hint":  differ,
 		"exotic_for_triage_first30": log,
@@ -826,7 +863,7 @@ func Extra() map[string]any {
 
 var Driver = core.Driver[Input, Obs]{
 	Spec: core.Spec{Property: "C19", Imports: []string{"C19_Model", "C19_Spec", "C19_Corr"}, Corr: "C19_Corr",
-		Triggers: []string{"XMODEL", "XSPEC", "RESERVED"}, ShrinkKey: "ctxs",
-		Rule: "one run of a generated bash hook (real shell_lib.sh + frameworks/shell, scripted handler functions, trace file) per case; streams: corpus, exhaustive-1, exhaustive-2 (thorough), random (0-6 contexts, safe binding names, shuffled definitions, 8 exit codes, --config and other arguments), malformed (contexts the operator never produces; model only), exotic (triage only); non-trivial = dispatch over >=1 context with >=1 handler defined, or --config with __config__ defined; distinct = distinct input JSON"},
+		Triggers: []string{"F20", "XMODEL", "XSPEC"}, ShrinkKey: "ctxs",
+		Rule: "one run of a generated bash hook (real shell_lib.sh + frameworks/shell, scripted handler functions, trace file) per case; streams: corpus, exhaustive-1, exhaustive-2 (thorough), random (0-6 contexts, safe binding names, shuffled definitions, 8 exit codes, --config and other arguments), malformed (contexts the operator never produces; model only), trigger-F20 (typed binding named onStartup), exotic (triage only); non-trivial = dispatch over >=1 context with >=1 handler defined, or --config with __config__ defined; distinct = distinct input JSON"},
 	Gen: Gen, Run: Run, Render: Render, PerShard: 150, Workers: 12, CaseTimout: 40 * time.Second, Extra: Extra,
 }
